@@ -24,7 +24,8 @@ ASSUMPTIONS = ["decimal.Decimal parses the generated numbers"]
 MONITORS = ["timingdata_source", "displaybpm"]
 REQUIRED = ["source_chart", "source_simfile", "version_0.7", "version_0.69", "version_absent", "sm_simfile", "sm_chart",
             "chart_offset_absent_simfile_offset_set", "dbpm_static", "dbpm_range", "dbpm_random", "dbpm_malformed",
-            "dbpm_fallback_single", "dbpm_fallback_range", "dbpm_fallback_range_equal_values", "ignore_specified"]
+            "dbpm_fallback_single", "dbpm_fallback_range", "dbpm_fallback_range_equal_values", "ignore_specified",
+            "non_timing_chart_property_set", "chart_value_identical_to_simfile_value"]
 
 PROPS = ["BPMS", "STOPS", "DELAYS", "TIMESIGNATURES", "TICKCOUNTS", "COMBOS", "WARPS", "SPEEDS", "SCROLLS", "FAKES", "LABELS"]
 VERSIONS = [None, "", "0.69", "0.7", "0.70", "0.83", "1.0"]
@@ -200,6 +201,17 @@ def run_one(ctx, case):
                 chart[key] = ""
             elif st == 2:
                 chart[key] = cv[key]
+        for key in ("ATTACKS", "CHARTNAME", "CREDIT", "MUSIC", "KEYSOUNDS"):
+            if rng.random() < 0.3:
+                chart[key] = rng.choice(["TIME=1.000:END=2.000:MODS=*2 drunk", "x", "0.000=1.000"])  # never a trigger
+                ctx.feat("non_timing_chart_property_set")
+        same = rng.random() < 0.25
+        if same:
+            # the chart repeats some of the simfile's timing text verbatim; the other fields still tell the sources apart
+            for key in ("BPMS", "STOPS", "DELAYS", "WARPS"):
+                if key in chart and chart[key] and sf.get(key) and rng.random() < 0.7:
+                    chart[key] = sf[key]
+                    ctx.feat("chart_value_identical_to_simfile_value")
         c_off = rng.choice([0, 1, 2, 2])
         if c_off:
             chart["OFFSET"] = "" if c_off == 1 else cv["OFFSET"]
